@@ -86,6 +86,7 @@ type tokenSpec struct {
 	alg     string
 	kid     bool
 	defects []string
+	expAt   time.Time // overrides the default expiry (an hour ahead) when set
 }
 
 func signWith(method jwt.SigningMethod, key any, kid string, claims jwt.MapClaims) string {
@@ -113,6 +114,9 @@ func has(xs []string, x string) bool {
 func buildToken(a authConf, sp tokenSpec, endpoints []string) string {
 	k := TestKeys()
 	claims := jwt.MapClaims{"exp": time.Now().Add(time.Hour).Unix()}
+	if !sp.expAt.IsZero() {
+		claims["exp"] = sp.expAt.Unix()
+	}
 	if a.audience != "" {
 		claims["aud"], claims["iss"] = a.audience, a.issu
 	}
@@ -288,7 +292,7 @@ func fillParams(p string) string {
 }
 
 func TestC09(t *testing.T) {
-	vlib.SetRule("C09", "TestC09", "per case one protected port (proxy / upstream / admin) of a real 2-node cluster under one of 7 key configurations (HMAC, RSA, ECDSA, pairs, all three, JWKS file) with or without audience+issuer; the port's gin route table is enumerated through the shim (plus no-route paths, other methods and admin ?forward=) and each request carries a token built from a valid base with 0-2 defects (alg none, wrong key, HS256 signed with the RSA/EC public PEM, key family not configured, tampered header/payload/signature, expired, nbf in the future, wrong/missing aud/iss) placed in Authorization and/or x-piko-authorization (valid shadowed by invalid and vice versa), with Bearer / Basic / empty schemes, or no header, optionally naming a tenant (none is configured); oracle: validity is known by construction; every invalid request gets 401 with nothing but the error object in the body, and the upstream / registry / peer admin behind the route does not observe it; non-trivial = token with exactly one defect, or a valid token shadowed by an invalid one")
+	vlib.SetRule("C09", "TestC09", "per case one protected port (proxy / upstream / admin) of a real 2-node cluster under one of 7 key configurations (HMAC, RSA, ECDSA, pairs, all three, JWKS file) with or without audience+issuer; the port's gin route table is enumerated through the shim (plus no-route paths, other methods and admin ?forward=) and each request carries a token built from a valid base with 0-2 defects (alg none, wrong key, HS256 signed with the RSA/EC public PEM, key family not configured, tampered header/payload/signature, expired, nbf in the future, wrong/missing aud/iss) placed in Authorization and/or x-piko-authorization (valid shadowed by invalid and vice versa), with Bearer / Basic / empty schemes, or no header, optionally naming a tenant (none is configured); in an eighth of the cases one token is presented while valid and again, unchanged, after its expiry (with disconnect-on-expiry enabled or disabled); oracle: validity is known by construction; every invalid request gets 401 with nothing but the error object in the body, and the upstream / registry / peer admin behind the route does not observe it; non-trivial = token with exactly one defect, or a valid token shadowed by an invalid one")
 	vlib.Run(t, "C09", func(c *vlib.Case) {
 		dir, err := os.MkdirTemp("", "verif-c09-")
 		if err != nil {
@@ -305,8 +309,13 @@ func TestC09(t *testing.T) {
 		}
 		port := c.OneOf("port", "proxy", "upstream", "admin")
 		c.Header["key_conf"], c.Header["aud_iss"], c.Header["port"] = a.name, a.audience != "", port
+		// the option that keeps connections open past the expiry of their token must not
+		// make the expiry itself go away
+		keepPastExpiry := c.Bool("disableDisconnectOnExpiry")
+		c.Header["disable_disconnect_on_expiry"] = keepPastExpiry
 		cl, err := StartCluster(2, false, func(i int, conf *config.Config) {
 			ac := a.toConfig(jwksPath)
+			ac.DisableDisconnectOnExpiry = keepPastExpiry
 			switch port {
 			case "proxy":
 				if i == 0 {
@@ -459,6 +468,41 @@ func TestC09(t *testing.T) {
 			} else {
 				c.Class("valid-refused(over-rejection,not-claimed)")
 			}
+		}
+		// a token presented while valid and again, unchanged, after it has expired
+		if len(routes) > 0 && c.Chance("sameTokenAcrossExpiry", 1, 8) {
+			r := routes[c.Pick("expiryRoute", len(routes))]
+			sp := drawToken(c, a, true)
+			exp := time.Now().Add(2200 * time.Millisecond).Truncate(time.Second)
+			if time.Until(exp) < 1200*time.Millisecond {
+				exp = exp.Add(time.Second)
+			}
+			sp.expAt = exp
+			tok := buildToken(a, sp, nil)
+			send := func() *HTTPResult {
+				req, _ := http.NewRequest(r.method, "http://"+addr+r.path, nil)
+				req.Host = "e1.piko.test"
+				req.Header.Set("Authorization", "Bearer "+tok)
+				return DoWith(KeepAliveClient, req)
+			}
+			first := send()
+			time.Sleep(time.Until(exp.Add(1200 * time.Millisecond)))
+			var servedBefore int64
+			if up != nil {
+				servedBefore = up.Served.Load()
+			}
+			second := send()
+			c.Stepf("%s %s with a token expiring at %v: %d while valid, %d afterwards (disable_disconnect_on_expiry=%v)", r.method, r.path, exp.Format("15:04:05"), first.Status, second.Status, keepPastExpiry)
+			if second.Err != nil {
+				c.Fatalf("C09: no answer: %v", second.Err)
+			}
+			if second.Status != 401 {
+				c.Fatalf("C09: %s port, %s %s: a token accepted while valid (status %d) was still accepted %v after its expiry (status %d; disable_disconnect_on_expiry=%v)", port, r.method, r.path, first.Status, time.Since(exp).Round(time.Millisecond), second.Status, keepPastExpiry)
+			}
+			if up != nil && up.Served.Load() != servedBefore {
+				c.Fatalf("C09: a request with an expired token reached the upstream")
+			}
+			c.Class("same-token-across-expiry")
 		}
 		vlib.AddExtra("C09", "TestC09", "valid_tokens_that_reached_a_handler", float64(reachedValid))
 	})
